@@ -257,6 +257,7 @@ func C03(rep *ev.Reporter, tier string) {
 		})
 	}
 	RunFamily(rep, gen, 4000, bud, judgeC03)
+	rep.Coverage["wide_program_runs"] = wideFamily(rep, "C03", judgeC03)
 	// overlapping runs on ONE engine value: salience layers whose lower rules carry a probe in their condition (the
 	// nested run starts while the candidate list of the outer cycle is half built) and in their actions
 	{
